@@ -68,6 +68,13 @@ func lexSpec(src string, where string) ([]tok, error) {
 			i++
 			continue
 		}
+		if c == '/' && i+1 < len(rs) && rs[i+1] == '/' {
+			// trailing comment inside an annotation line
+			for i < len(rs) && rs[i] != '\n' {
+				i++
+			}
+			continue
+		}
 		if unicode.IsLetter(c) || c == '_' || c == '\\' || c == '$' {
 			j := i + 1
 			for j < len(rs) && (unicode.IsLetter(rs[j]) || unicode.IsDigit(rs[j]) || rs[j] == '_' || rs[j] == '$') {
